@@ -1058,3 +1058,5 @@ O(id="C19.compress_buffers", props=["C19", "C06"], entry="harness_compress", rea
 O(id="C19.send_frame_compressed", props=["C19", "C10", "C12", "C06"], entry="harness_send_frame_compressed", reach=["sent_compressed", "sent_uncompressed"],
   functions=["send_frame", "websocket_compress"], symbolic="message length 1..4, frame type text/binary, everything deflate does (amounts, bytes, return code)",
   assumes=["allocations succeed"], bounds="message <= 4 bytes", **dict(_ws, unwind=10, stubs=_ws["stubs"] + ["deflate: contract stub (consumes <= avail_in, produces <= avail_out, writes what fits, any return code)"]))
+
+# (C19.fragmented_message - text_frame_received_comp over two fragments with the inflate stub - ran out of memory at 24 GB even for fragments of <= 2 bytes: not registered, see DESIGN.md 8.5; harness_fragmented is kept in harness/c19_compress.c)
